@@ -157,7 +157,7 @@ def exhaustive(tier, rng):
     # lists of ints
     for xs in list_contents(INTS):
         stats["list_int_contents"] += 1
-        ops = keep(list_ops(A_LI, len(xs), INTS, FNS_INT, STRS), 0.07)
+        ops = keep(list_ops(A_LI, len(xs), INTS, FNS_INT, STRS), 0.3)
         cases += make_cases(t_plain, A_LI, ("list", xs), ops, batch, inplace_every=5 if quick else 3)
     # lists of strings: integer targets fall under the defaulting rule "index unless element type"
     for xs in list_contents(STRS, 2 if quick else 3):
@@ -173,12 +173,12 @@ def exhaustive(tier, rng):
         for i in idx:
             ops.append(("with_item", A_LS, H([S(0)], index=i, insert=True)))
             ops.append(("with_item", A_LS, H([S(8)], index=i)))
-        ops = keep(ops, 0.12)
+        ops = keep(ops, 0.4)
         cases += make_cases(t_plain, A_LS, ("list", xs), ops, batch, inplace_every=7)
     # dicts
     for kvs in dict_contents():
         stats["dict_contents"] += 1
-        ops = keep(dict_ops(A_D), 0.07)
+        ops = keep(dict_ops(A_D), 0.3)
         cases += make_cases(t_plain, A_D, ("dict", kvs), ops, batch, inplace_every=5 if quick else 3)
     # sets
     for xs in set_contents():
@@ -189,7 +189,7 @@ def exhaustive(tier, rng):
         cases += make_cases(t_prep, A_S, ("set", xs), ops, batch, inplace_every=4)
     # item preparer on the list
     for xs in list_contents(INTS, 2):
-        ops = keep(list_ops(A_LI, len(xs), INTS, FNS_INT, STRS), 0.05)
+        ops = keep(list_ops(A_LI, len(xs), INTS, FNS_INT, STRS), 0.2)
         cases += make_cases(t_prep, A_LI, ("list", xs), ops, batch, inplace_every=6)
     # the container is missing (created by the helper)
     for aid, ops in ((A_LI, list_ops(A_LI, 0, INTS, FNS_INT, STRS)), (A_D, dict_ops(A_D)), (A_S, set_ops(A_S))):
